@@ -265,6 +265,12 @@ def robustness_stream(ctx):
                 if t.get('end') is not None and t['end'] > c['now']:
                     t['end'] = None
         cases.append(c)
+    # ids of both legal types in one WBS (int and str) in an eighth of the cases (decided by a stream of its own)
+    import random as _random
+    rng2 = _random.Random('C14/mixed-ids/%s' % ctx.seed)
+    for c in cases:
+        if rng2.random() < 0.125 and 'task_aware' not in c:
+            c['mixed_ids'] = True
     # aimed: work that fits into one overtime day (closed in the calendar, opened by the resource for this task)
     cases += [sc.gen_overtime_case(ctx.rng, d) for d in ('bwd', 'fwd', 'bwd', 'fwd')]
     outs = []
